@@ -228,6 +228,69 @@ theorem late_binding_refuted :
     [.res 0 (.int 2) 10, .res 1 (.int 2) 20], by decide, by decide,
     .res 0 (.int 2) 10, by decide, by decide⟩
 
+/-- what was returned to batch `i` / the deliveries that went to batch `i` -/
+def forBatch {α : Type} (i : Nat) (l : List (Nat × α)) : List α :=
+  l.filterMap fun p => if p.1 = i then some p.2 else none
+
+/-- **batches_independent.**  With several request batches in flight on one connection and
+    their deliveries interleaved in **any** way, what the `send_result` calls of batch `i` return
+    is exactly what they would return if batch `i` were alone and received the same deliveries
+    in the same relative order: no state is shared between batches. -/
+theorem batches_independent (max inc : Nat) (encLen : Id → R → Nat) (i : Nat) :
+    ∀ (ds : List (Nat × Call R)) (bs : List (List Item × ReqBatch R)) (its : List Item)
+      (b : ReqBatch R), bs[i]? = some (its, b) →
+      forBatch i (runMulti max inc encLen bs ds) = runCalls max inc encLen its b (forBatch i ds)
+  | [], _, _, _, _ => rfl
+  | (j, c) :: ds, bs, its, b, hb => by
+    by_cases hd : j = i
+    · -- a delivery to batch i
+      subst hd
+      have hlt : j < bs.length := by
+        rcases Nat.lt_or_ge j bs.length with h | h
+        · exact h
+        · rw [getElem?_eq_none h] at hb; cases hb
+      cases hid : boundId its c.1 with
+      | none =>
+        have ih := batches_independent max inc encLen j ds bs its b hb
+        simp only [forBatch] at ih
+        simp only [runMulti, hb, hid, forBatch, filterMap_cons, ↓reduceIte, runCalls, ih]
+      | some id =>
+        have hset : (bs.set j (its, (sendResult max inc encLen b c.1 id c.2).1))[j]? =
+            some (its, (sendResult max inc encLen b c.1 id c.2).1) := getElem?_set_self hlt
+        have ih := batches_independent max inc encLen j ds _ its _ hset
+        simp only [forBatch] at ih
+        simp only [runMulti, hb, hid, forBatch, filterMap_cons, ↓reduceIte, runCalls, ih]
+    · -- a delivery to another batch leaves batch i as it is
+      have hskip : forBatch i ((j, c) :: ds) = forBatch i ds := by
+        simp [forBatch, hd]
+      rw [hskip]
+      cases hbd : bs[j]? with
+      | none =>
+        have ih := batches_independent max inc encLen i ds bs its b hb
+        simp only [forBatch] at ih ⊢
+        simp only [runMulti, hbd, filterMap_cons, hd, ↓reduceIte, ih]
+      | some ib =>
+        cases hid : boundId ib.1 c.1 with
+        | none =>
+          have ih := batches_independent max inc encLen i ds bs its b hb
+          simp only [forBatch] at ih ⊢
+          simp only [runMulti, hbd, hid, filterMap_cons, hd, ↓reduceIte, ih]
+        | some id =>
+          have ih := batches_independent max inc encLen i ds
+            (bs.set j (ib.1, (sendResult max inc encLen ib.2 c.1 id c.2).1)) its b
+            (by rw [getElem?_set_ne hd]; exact hb)
+          simp only [forBatch] at ih ⊢
+          simp only [runMulti, hbd, hid, filterMap_cons, hd, ↓reduceIte, ih]
+
+/-- non-vacuity: two batches `[req 7, req 7]` and `[invalid, req 7]`, deliveries interleaved
+    0.1, 1.1, 0.0: each gets its own reply, with its own entries -/
+example :
+    let b0 : List Item × ReqBatch Nat := ([.request 0 (.int 7), .request 1 (.int 7)], ⟨[], 2, 0⟩)
+    let b1 : List Item × ReqBatch Nat := ([.request 1 (.int 7)], ⟨[.err 0 .null], 2, 0⟩)
+    runMulti 0 2 (fun _ _ => 5) [b0, b1] [(0, 1, 10), (1, 1, 20), (0, 0, 30)] =
+      [(0, none), (1, some [.err 0 .null, .res 1 (.int 7) 20]),
+       (0, some [.res 1 (.int 7) 10, .res 0 (.int 7) 30])] := by decide
+
 theorem all_notif_members (R : Type) : ∀ (ms : List Mem), (∀ m ∈ ms, m = .notif) → ∀ i,
     reqMembers i ms = [] ∧ errEntries (R := R) i ms = []
   | [], _, _ => ⟨rfl, rfl⟩
@@ -736,6 +799,56 @@ theorem send_once_in_scope_refuted :
   have := h [.ret 5, .timeout, .written]
   revert this
   decide
+
+/-- what the task of request member `m` hands to `send_result`, given the events it sees -/
+def taskRes (es : List (Ev R)) : Res R := (firstOutcome es).getD .busy
+
+/-- **session_batch_one_reply.**  The serving session on a batch: every request member has its
+    own task seeing its own sequence of events `evs m` (any sequences in which the handler
+    returns or the timeout fires at least once), and the tasks reach their `send_result` in any
+    order `order`.  Then every task calls `send_result` exactly once, and exactly one batch
+    response leaves, when the last task delivers; entry `k` of its results part answers member
+    `order[k]` under that member's own id and carries the handler's result if the handler
+    returned before the timeout fired, the SERVER_BUSY error if the timeout fired first (or the
+    "too large" replacement). -/
+theorem session_batch_one_reply (max inc : Nat) (encLen : Id → Res R → Nat) (ms : List Mem)
+    (order : List Nat) (hperm : order ~ reqIdx ms) (hne : reqMembers 0 ms ≠ [])
+    (evs : Nat → List (Ev R)) (hdone : ∀ m ∈ order, firstOutcome (evs m) ≠ none) :
+    (∀ m ∈ order, ∀ msg, sendCalls (trun true msg .handling (evs m)).2 = [taskRes (evs m)]) ∧
+    ∃ es tail : List (Entry (Res R)),
+      replies max inc encLen ms (order.map fun m => (m, taskRes (evs m))) = [es] ∧
+      es = errEntries 0 ms ++ tail ∧
+      ∀ (k : Nat) (hk : k < order.length), ∃ id,
+        ms[order[k]]? = some (.req id) ∧
+        (tail[k]? = some (.res (order[k]) id (taskRes (evs (order[k])))) ∨
+         tail[k]? = some (.big (order[k]) id)) := by
+  constructor
+  · intro m hm msg
+    have h := (task_sends_once true msg (evs m)).1
+    simp only [↓reduceIte] at h
+    rw [h]
+    unfold taskRes
+    cases hf : firstOutcome (evs m) with
+    | none => exact absurd hf (hdone m hm)
+    | some x => rfl
+  · have hmap : (order.map fun m => (m, taskRes (evs m))).map (·.1) = order := by
+      simp [map_map, Function.comp_def]
+    obtain ⟨_, _, es, tail, _, _, hrep, hes, _, _, _, hk⟩ :=
+      batch_one_reply max inc encLen ms (order.map fun m => (m, taskRes (evs m)))
+        (by rw [hmap]; exact hperm) hne
+    refine ⟨es, tail, hrep, hes, ?_⟩
+    intro k hk'
+    have := hk k (by simpa using hk')
+    simpa [getElem_map] using this
+
+/-- non-vacuity of `session_batch_one_reply`: members 0 and 2 are requests; member 2's handler
+    returns 5 while member 0 times out (and the write of the batch is parked while member 2's
+    timeout instant passes): one batch, SERVER_BUSY under id 1, the result 5 under id 3. -/
+example :
+    let ms : List Mem := [.req (.int 1), .notif, .req (.int 3)]
+    let evs : Nat → List (Ev Nat) := fun m => if m = 0 then [.timeout] else [.ret 5, .timeout, .written]
+    replies 0 2 (fun _ _ => 9) ms ([2, 0].map fun m => (m, taskRes (evs m)))
+      = [[.res 2 (.int 3) (.value 5), .res 0 (.int 1) .busy]] := by decide
 
 /-! ## ties to the source (facts regenerated from /repo on every run) -/
 
